@@ -166,7 +166,7 @@ Target Tables:
             self._sql_holder.get_column_lineage(
                 exclude_path_ending_in_subquery, exclude_subquery_columns
             ),
-            key=lambda x: (str(x[-1]), str(x[0])),
+            key=lambda x: (str(x[-1]), str(x[0]), [str(col) for col in x]),
         )
 
     def print_column_lineage(self) -> None:
